@@ -1,6 +1,8 @@
 package main
 
 import (
+	"go/token"
+	"go/ast"
 	"sync"
 	"fmt"
 	"go/parser"
@@ -929,7 +931,73 @@ func (f *frame) applyContract(at ssa.Instruction, ct *Contract, args []T, st *St
 	} else {
 		rs = f.freshResults(ct.Sig, st)
 	}
+	// a result that the contract equates with a parameter unconditionally (ensures result == z && ...) IS that
+	// argument: use the argument's term, so that writes through the result are recognised as writes to the argument
+	if !(ct.Pure && ct.IsIface) {
+		for _, en := range ct.Ensures {
+			var walk func(x ast.Expr)
+			walk = func(x ast.Expr) {
+				switch y := x.(type) {
+				case *ast.ParenExpr:
+					walk(y.X)
+				case *ast.BinaryExpr:
+					if y.Op == token.LAND {
+						walk(y.X)
+						walk(y.Y)
+					}
+					if y.Op == token.EQL {
+						l, lok := y.X.(*ast.Ident)
+						r, rok := y.Y.(*ast.Ident)
+						if lok && rok {
+							k := -1
+							if l.Name == "result" || l.Name == "result0" {
+								k = 0
+							}
+							if k == 0 && k < len(rs) && rs[k].Sort == "Int" {
+								if a, ok := env.vars[r.Name]; ok && a.Sort == "Int" && r.Name != "result" {
+									rs[k] = T{a.S, "Int", rs[k].Go}
+								}
+							}
+						}
+					}
+				}
+			}
+			walk(en.Expr)
+		}
+	}
 	penv := &specEnv{f: f, vars: env.vars, cur: st, old: old, pkg: ct.Pkg, lets: ct.Lets, results: rs, resName: ct.ResultNames}
+	// results the contract declares fresh unconditionally (a top-level conjunct fresh(result)): writes through them are
+	// writes to objects allocated by this call (used by the write analysis of loops and pool closures)
+	for _, en := range ct.Ensures {
+		var walk func(x ast.Expr)
+		walk = func(x ast.Expr) {
+			switch y := x.(type) {
+			case *ast.ParenExpr:
+				walk(y.X)
+			case *ast.BinaryExpr:
+				if y.Op == token.LAND {
+					walk(y.X)
+					walk(y.Y)
+				}
+			case *ast.CallExpr:
+				if id, ok := y.Fun.(*ast.Ident); ok && id.Name == "fresh" && len(y.Args) == 1 {
+					if a, ok := y.Args[0].(*ast.Ident); ok {
+						if t, err := penv.eval(a); err == nil && strings.Contains(t.S, "!") && !strings.Contains(t.S, " ") {
+							for _, r := range rs {
+								if r.S == t.S {
+									if e.freshRes == nil {
+										e.freshRes = map[string]bool{}
+									}
+									e.freshRes[t.S] = true
+								}
+							}
+						}
+					}
+				}
+			}
+		}
+		walk(en.Expr)
+	}
 	for _, list := range [][]*SpecExpr{ct.Ensures, ct.Summary} {
 		for _, en := range list {
 			t, err := penv.evalBool(en)
@@ -1332,6 +1400,7 @@ func (f *frame) parallelize(at ssa.Instruction, c *ssa.CallCommon, args []T, st 
 	}
 	e.assumed["A-PAR: closures run by Pool.Parallelize do not interfere with each other ("+relName(fn)+")"] = true
 	count := args[1]
+	preSt := st.clone() // the state in which Parallelize is called (old(...) and fresh(...) of closure contracts refer to it)
 	// 1. probe: what does one call write?
 	snap := e.snap()
 	wl := len(e.wlog)
@@ -1376,6 +1445,46 @@ func (f *frame) parallelize(at ssa.Instruction, c *ssa.CallCommon, args []T, st 
 	e.assume(implies(body.cond, and("(<= 0 "+i.S+")", "(< "+i.S+" "+count.S+")")))
 	f.inline(at, fn, []T{i}, mc, body)
 	f.bumpW(st)
+	// 3b. per-index postconditions: a closure with a contract (//@ func Outer$k ... ensures P(i)) promises P(i) when the
+	// call for index i returns; checked on the symbolic call above, and -- as the calls for different indices do not
+	// interfere (A-PAR) -- assumed for every index once Parallelize has returned
+	if cct := e.db.byFunc[fn.String()]; cct != nil && len(cct.Ensures) > 0 && mc != nil {
+		mkEnv := func(iv T, cur *State) *specEnv {
+			g := &frame{e: e, fn: fn, vals: map[ssa.Value]T{}, addrs: map[ssa.Value]Addr{}, tuples: map[ssa.Value][]T{},
+				depth: f.depth + 1, stack: append(append([]*ssa.Function{}, f.stack...), f.fn), root: f.root,
+				pinv: map[*ssa.BasicBlock]*pendInv{}}
+			if len(fn.Params) > 0 {
+				iv.Go = fn.Params[0].Type()
+				g.vals[fn.Params[0]] = iv
+			}
+			for k, fv := range fn.FreeVars {
+				if k < len(mc.Bindings) {
+					g.vals[fv] = f.val(mc.Bindings[k], st)
+				}
+			}
+			g.ct = cct
+			env := g.specEnv(cur)
+			env.old = preSt
+			env.pkg = cct.Pkg
+			env.lets = cct.Lets
+			return env
+		}
+		an, pos := f.anchor(at)
+		for _, en := range cct.Ensures {
+			if t, err := mkEnv(i, body).evalBool(en); err == nil {
+				e.addOb("par-post", relName(fn)+":"+en.Text+"|"+an, en.Tags, pos, body.cond, t)
+			} else {
+				e.note("closure ensures eval: " + err.Error())
+				continue
+			}
+			q := T{"par!q", "Int", types.Typ[types.Int]}
+			env := mkEnv(q, st)
+			env.nbound++
+			if t, err := env.evalBool(en); err == nil {
+				e.assume(implies(st.cond, "(forall ((par!q Int)) (=> (and (<= 0 par!q) (< par!q "+count.S+")) "+t+"))"))
+			}
+		}
+	}
 	// 4. results
 	rt := c.Signature().Results().At(0).Type()
 	res := f.freshVal("par_res", rt, st)
